@@ -528,7 +528,7 @@ fn gigantic_pages(rng: &mut Rng, rep: &mut Report) {
 
 pub fn run(ctx: &Ctx) -> Outcome {
     let (bw, bh) = if ctx.quick() { (14u32, 25u32) } else { (20, 33) };
-    let n_seq = ctx.size(200_000, 2_000_000);
+    let n_seq = ctx.size(200_000, 12_000_000);
     let seq_shards = 64usize;
     let mut sizes: Vec<(u32, u32)> = vec![];
     for w in 0..=bw {
